@@ -58,3 +58,15 @@ package attachment
 //@   requires C10.records: forallkey(k, progress.Record, progress.Record[k] != nil)
 //@   precall WriteFile C19.path: len(arg0) == 3 + len(phone) + len(name) && arg0[0] == '.' && arg0[1] == '/' && forall(i, 0, len(phone), arg0[2+i] == phone[i]) && arg0[2+len(phone)] == '/' && forall(i, 0, len(name), arg0[3+len(phone)+i] == name[i])
 //@   precall WriteFile C19.confined: nosep(name) && name != "" && name != "." && name != ".."
+
+// newStandardJT808DataHandle creates all three message objects; 0x1210 records are created with both maps
+//@ valid *standardJT808DataHandle s: s != nil && s.T0x1210 != nil && s.T0x1211 != nil && s.T0x1212 != nil
+//@ func (*standardJT808DataHandle).OnPackageProgressEvent
+//@   requires C10.progress: progress != nil && progress.Record != nil
+//@   requires C10.records: forallkey(k, progress.Record, progress.Record[k] != nil)
+
+// Chunk headers: callers check HasMinHeadLen first (PackageProgress.stageStreamData)
+//@ func (*baseStreamDataHandle).Parse
+//@   requires C15.min: len(data) >= 62
+//@ func (*heiBiaoStreamDataHandle).Parse
+//@   requires C15.min: len(data) >= 5 && len(data) >= 13 + int(data[4])
